@@ -61,3 +61,12 @@ package udpip
 //@   ensures u.dispatchStart == old(u.dispatchStart) && u.dispatchEnd == old(u.dispatchEnd) && u.dispatchRedirect == old(u.dispatchRedirect)
 //@   ensures result1 == nil ==> u.internalConnection != nil && typeis(u.internalConnection.link, *internalLink) && asptr(u.internalConnection.link, *internalLink) != nil && linkRangeOK(u)
 //@   ensures result1 == nil ==> result0 == u.internalConnection.link
+
+//@ # ---- C08: receive-side functions run on raw bytes from the wire
+//@ func computeProcID
+//@   props C08
+//@   requires numProcRoutines > 0 && numProcRoutines < 0x7fffffff
+//@ # a STUN binding response is at most 20+8+16 bytes; the packet buffer is far larger (buffer invariant)
+//@ func (*internalLink).processPacket
+//@   props C08
+//@   requires pkt != nil && pkt.RemoteAddr != nil && cap(pkt.RawPacket) >= 64
